@@ -5,6 +5,8 @@ import (
 	"strings"
 
 	"github.com/freeconf/yang/node"
+	"github.com/freeconf/yang/nodeutil"
+	"github.com/freeconf/yang/parser"
 
 	"verif/core"
 	"verif/dp"
@@ -40,12 +42,101 @@ var c17keyCfgs = []c17keyCfg{
 func c17LookupCases(tier string) int {
 	n := len(dp.GoModes) * len(c17keyCfgs)
 	if tier == "thorough" {
-		return 6 * n // other PRNG draws: list representations, present/absent split
+		n = 6 * n // other PRNG draws: list representations, present/absent split
 	}
-	return n
+	return n + len(c17exoticKinds)*2
+}
+
+// key types whose Go values are not plain comparable scalars of one type: lists kept as []map[string]interface{} with the natural Go
+// value for the key leaf ([]byte, float64, the enum label, an int or a string for a union), under both reflection nodes
+var c17exoticKinds = []struct {
+	name, typ string
+	keys      []interface{} // Go values of the key leaf; the first half (rounded up) is present
+	path      []string      // how each key is written in a path
+}{
+	{"binary", "binary", []interface{}{[]byte("ab"), []byte("cd"), []byte{0}, []byte{0xff, 0xfe}, []byte("abc"), []byte("a"), []byte{}}, []string{"YWI%3D", "Y2Q%3D", "AA%3D%3D", "%2F%2F4%3D", "YWJj", "YQ%3D%3D", ""}},
+	{"decimal64", "decimal64 { fraction-digits 2; }", []interface{}{1.5, 2.25, -0.01, 0.0, 100.0, 1.51, -1.5, 2.2}, []string{"1.5", "2.25", "-0.01", "0", "100", "1.51", "-1.5", "2.2"}},
+	{"enumeration", "enumeration { enum a; enum b; enum ab; enum c { value 10; } enum d; }", []interface{}{"a", "ab", "c", "b", "d"}, []string{"a", "ab", "c", "b", "d"}},
+	{"union", "union { type int32; type string; }", []interface{}{5, "x", -1, "5x", "10", 7, "y", 50}, []string{"5", "x", "-1", "5x", "10", "7", "y", "50"}},
+}
+
+func c17Exotic(c *core.Ctx, k int) {
+	kind := c17exoticKinds[k/2]
+	api := []string{"reflect", "node"}[k%2]
+	yang := fmt.Sprintf("module m { namespace \"urn:m\"; prefix m; revision 2020-01-01; list l { key k; leaf k { type %s } leaf payload { type string; } } }", strings.TrimSuffix(kind.typ, ";")+func() string {
+		if strings.HasSuffix(kind.typ, "}") {
+			return ""
+		}
+		return ";"
+	}())
+	m, err := parser.LoadModuleFromString(nil, yang)
+	if err != nil {
+		c.R.Inconclusive = "lookup schema does not load: " + head(err.Error(), 200)
+		return
+	}
+	nPresent := (len(kind.keys) + 1) / 2
+	order := c.Rand.Perm(nPresent)
+	var rows []map[string]interface{}
+	for _, i := range order {
+		rows = append(rows, map[string]interface{}{"k": kind.keys[i], "payload": fmt.Sprintf("entry-%d", i)})
+	}
+	data := map[string]interface{}{"l": rows}
+	var n node.Node
+	if api == "reflect" {
+		n = nodeutil.ReflectChild(data)
+	} else {
+		n = &nodeutil.Node{Object: data}
+	}
+	b := node.NewBrowser(m, n)
+	c.SetSample(map[string]interface{}{"store": api + "-map", "key-type": kind.name, "present": nPresent, "asked": len(kind.keys)})
+	tag := fmt.Sprintf("%s-map/slice-of-maps/%s", api, kind.name)
+	for i, pk := range kind.path {
+		if pk == "" {
+			continue // an empty key cannot be written in a path
+		}
+		present := i < nPresent
+		c.Eval()
+		c.Shape("%s/present=%v", tag, present)
+		var sel *node.Selection
+		var ferr error
+		if c.Guard("Find l="+pk, func() { sel, ferr = b.Root().Find("l=" + pk) }) {
+			continue
+		}
+		if ferr != nil {
+			c.Violate("lookup-error/"+tag, "Find(%q) on a list kept as []map[string]interface{} (keys %v) returned %v", "l="+pk, kind.keys[:nPresent], ferr)
+			continue
+		}
+		if !present {
+			if sel != nil {
+				c.Violate("lookup-found-absent/"+tag, "Find(%q) selected an entry although no entry has that key; present keys: %v", "l="+pk, kind.keys[:nPresent])
+			}
+			continue
+		}
+		if sel == nil {
+			c.Violate("lookup-missed/"+tag, "Find(%q) selected nothing although the entry exists; present keys: %v", "l="+pk, kind.keys[:nPresent])
+			continue
+		}
+		var got interface{}
+		if c.Guard("read payload", func() {
+			v, e := sel.GetValue("payload")
+			ferr = e
+			if v != nil {
+				got = v.Value()
+			}
+		}) {
+			continue
+		}
+		if want := fmt.Sprintf("entry-%d", i); ferr != nil || got != want {
+			c.Violate("lookup-wrong-entry/"+tag, "Find(%q) selected the entry with payload %v (%v), want %q; present keys: %v", "l="+pk, got, ferr, want, kind.keys[:nPresent])
+		}
+	}
 }
 
 func c17Lookup(c *core.Ctx, k int) {
+	if base := c17LookupCases(c.Tier) - len(c17exoticKinds)*2; k >= base {
+		c17Exotic(c, k-base)
+		return
+	}
 	gm := dp.GoModes[k%len(dp.GoModes)]
 	cfg := c17keyCfgs[(k/len(dp.GoModes))%len(c17keyCfgs)]
 	r := c.Rand
